@@ -31,7 +31,7 @@ def _specs():
     add("Madgwick/IMU", "ga", lambda F, g, a, m, P: F.Madgwick(g, a, **P.get("madgwick", {})).Q)
     add("Madgwick/MARG", "gam", lambda F, g, a, m, P: F.Madgwick(g, a, m, **P.get("madgwick", {})).Q)
     add("Mahony/IMU", "ga", lambda F, g, a, m, P: F.Mahony(g, a, **P.get("mahony", {})).Q)
-    add("Mahony/MARG/kp,ki", "gam", lambda F, g, a, m, P: F.Mahony(g, a, m, kp=0.7, ki=0.2).Q)          # the gains under their older keyword names (docstring example)
+    add("Mahony/MARG/q0/kp,ki", "gam", lambda F, g, a, m, P: F.Mahony(g, a, m, kp=0.7, ki=0.2, q0=q0_of(P)).Q)          # the gains under their older keyword names (docstring example)
     add("Mahony/MARG", "gam", lambda F, g, a, m, P: F.Mahony(g, a, m, **P.get("mahony", {})).Q)
     for fr in ("NED", "ENU"):
         add("EKF/IMU/" + fr, "ga", lambda F, g, a, m, P, fr=fr: F.EKF(g, a, frame=fr, **P.get("ekf", {})).Q)
